@@ -181,4 +181,54 @@ theorem inj_surj (f : ℕ → ℕ) (n : ℕ) (hr : ∀ i, i < n → f i < n)
   obtain ⟨j, hj, e⟩ := Finset.mem_image.mp this
   exact ⟨j, Finset.mem_range.mp hj, e⟩
 
+/-! Range sums of real arrays: psum a lo hi = a lo + ... + a (hi-1)   (z3: psum(a, lo, hi)) -/
+
+noncomputable def psum (a : ℕ → ℝ) (lo hi : ℕ) : ℝ := ∑ i ∈ Finset.Ico lo hi, a i
+
+/-- psum_empty -/
+theorem psum_empty (a : ℕ → ℝ) (lo hi : ℕ) (h : hi ≤ lo) : psum a lo hi = 0 := by
+  unfold psum
+  rw [Finset.Ico_eq_empty_of_le h]
+  simp
+
+/-- psum_step -/
+theorem psum_step (a : ℕ → ℝ) (lo hi : ℕ) (h : lo < hi) : psum a lo hi = psum a lo (hi - 1) + a (hi - 1) := by
+  unfold psum
+  obtain ⟨k, rfl⟩ : ∃ k, hi = k + 1 := ⟨hi - 1, by omega⟩
+  have hk : lo ≤ k := by omega
+  rw [Finset.sum_Ico_succ_top hk]
+  simp
+
+/-- psum_split -/
+theorem psum_split (a : ℕ → ℝ) (lo mid hi : ℕ) (h1 : lo ≤ mid) (h2 : mid ≤ hi) :
+    psum a lo hi = psum a lo mid + psum a mid hi := by
+  unfold psum
+  exact (Finset.sum_Ico_consecutive a h1 h2).symm
+
+/-- psum_congr (a store outside the range is the special case "frame") -/
+theorem psum_congr (a b : ℕ → ℝ) (lo hi : ℕ) (h : ∀ i, lo ≤ i → i < hi → a i = b i) : psum a lo hi = psum b lo hi := by
+  unfold psum
+  apply Finset.sum_congr rfl
+  intro i hi'
+  have := Finset.mem_Ico.mp hi'
+  exact h i this.1 this.2
+
+/-- weighted_variance: with m the weighted mean of the range, the weighted mean squared residual is E[y^2] - m^2 -/
+theorem weighted_variance (w y : ℕ → ℝ) (lo hi : ℕ) (m : ℝ) (hW : psum w lo hi ≠ 0)
+    (hm : m = psum (fun k => w k * y k) lo hi / psum w lo hi) :
+    psum (fun k => w k * (y k - m) * (y k - m)) lo hi / psum w lo hi
+      = psum (fun k => w k * y k * y k) lo hi / psum w lo hi - m * m := by
+  have expand : psum (fun k => w k * (y k - m) * (y k - m)) lo hi
+      = psum (fun k => w k * y k * y k) lo hi - 2 * m * psum (fun k => w k * y k) lo hi + m * m * psum w lo hi := by
+    unfold psum
+    rw [Finset.mul_sum, Finset.mul_sum, ← Finset.sum_sub_distrib, ← Finset.sum_add_distrib]
+    apply Finset.sum_congr rfl
+    intro k _
+    ring
+  have hS : psum (fun k => w k * y k) lo hi = m * psum w lo hi := by
+    rw [hm]; field_simp
+  rw [expand, hS]
+  field_simp
+  ring
+
 end Pyvc
